@@ -964,3 +964,165 @@ Proof.
     - intros r Hr. apply Hu. apply in_rev. exact Hr. }
   split; [apply F|]. intros H. apply F in H. rewrite flip_rp_invol, rev_involutive in H. exact H.
 Qed.
+
+(* ------------------------------------------------------------------ *)
+(* orderability is a total preorder: the comparison composes *)
+
+Definition comp_ok (ab bc ac : comparison) : Prop :=
+  match ab, bc with
+  | Lt, Lt | Lt, Eq | Eq, Lt => ac = Lt
+  | Eq, Eq => ac = Eq
+  | _, _ => True
+  end.
+
+Lemma N_compare_comp x y z : comp_ok (N.compare x y) (N.compare y z) (N.compare x z).
+Proof.
+  unfold comp_ok. destruct (N.compare_spec x y), (N.compare_spec y z); auto; subst;
+    try (apply N.compare_lt_iff; lia); try (apply N.compare_eq_iff; lia).
+Qed.
+
+Lemma Z_compare_comp x y z : comp_ok (Z.compare x y) (Z.compare y z) (Z.compare x z).
+Proof.
+  unfold comp_ok. destruct (Z.compare_spec x y), (Z.compare_spec y z); auto; subst;
+    try (apply Z.compare_lt_iff; lia); try (apply Z.compare_eq_iff; lia).
+Qed.
+
+Ltac solve_comp :=
+  unfold comp_ok;
+  repeat (match goal with
+          | |- context [match ?c with Eq => _ | Lt => _ | Gt => _ end] => destruct c
+          end); auto.
+
+Lemma lex_cmp_comp a : forall b c, comp_ok (lex_cmp a b) (lex_cmp b c) (lex_cmp a c).
+Proof.
+  induction a as [|x a IH]; intros b c; destruct b as [|y b], c as [|z c]; cbn [lex_cmp];
+    try (solve_comp; fail).
+  pose proof (N_compare_comp x y z) as H. pose proof (IH b c) as H'.
+  destruct (N.compare x y) eqn:E1; destruct (N.compare y z) eqn:E2; unfold comp_ok in H |- *;
+    try rewrite H;
+    solve [ exact I | exact H' | auto
+          | destruct (lex_cmp a b); auto | destruct (lex_cmp b c); auto
+          | destruct (lex_cmp a b), (lex_cmp b c); auto ].
+Qed.
+
+Lemma ord_cmp_comp a : forall b c, comp_ok (ord_cmp a b) (ord_cmp b c) (ord_cmp a c).
+Proof.
+  induction a as [| x | x | x | l IHl | i | i] using value_ind'; intros b c;
+    destruct b as [| y | y | y | m | j | j]; destruct c as [| z | z | z | n | k | k];
+    try (cbn; solve_comp; fail).
+  - destruct x, y, z; cbn; auto; exact I.
+  - cbn. apply Z_compare_comp.
+  - cbn. apply lex_cmp_comp.
+  - cbn. revert m n. induction IHl as [|u l Hu _ IH]; intros m n; destruct m as [|v m], n as [|w n];
+      try (solve_comp; fail).
+    pose proof (Hu v w) as H. pose proof (IH m n) as H'. cbn.
+    match goal with |- comp_ok ?A ?B ?C => set (ab := A); set (bc := B); set (ac := C) end.
+    unfold ab, bc, ac. clear ab bc ac.
+    destruct (ord_cmp u v) eqn:E1; destruct (ord_cmp v w) eqn:E2; unfold comp_ok in H |- *;
+      try rewrite H;
+      solve [ exact I | exact H' | auto
+            | match goal with |- context [match ?c with Eq => _ | Lt => _ | Gt => _ end] => destruct c; auto end ].
+Qed.
+
+Lemma ord_cmp_refl a : ord_cmp a a = Eq.
+Proof. pose proof (ord_cmp_opp a a) as H. destruct (ord_cmp a a); cbn in H; congruence. Qed.
+
+Definition vle (a b : value) : Prop := ord_cmp a b <> Gt.
+
+Lemma vle_trans a b c : vle a b -> vle b c -> vle a c.
+Proof.
+  unfold vle. intros H1 H2. pose proof (ord_cmp_comp a b c) as H. unfold comp_ok in H.
+  destruct (ord_cmp a b), (ord_cmp b c); try congruence; rewrite H; discriminate.
+Qed.
+
+Lemma vle_of_gt a b : ord_cmp a b = Gt -> vle b a.
+Proof. unfold vle. intros H. rewrite (ord_cmp_opp a b), H. cbn. discriminate. Qed.
+
+(* min / max by folding: the result is an element, and it is below / above every element *)
+Lemma best_min_spec : forall r v,
+  let m := fold_left (fun acc x => if (match ord_cmp acc x with Gt => false | _ => true end) then acc else x) r v in
+  In m (v :: r) /\ Forall (vle m) (v :: r).
+Proof.
+  induction r as [|x r IH]; intros v; cbn [fold_left].
+  - split; [left; reflexivity | constructor; [unfold vle; rewrite ord_cmp_refl; discriminate | constructor]].
+  - set (acc := if match ord_cmp v x with Gt => false | _ => true end then v else x).
+    destruct (IH acc) as [Hin Hall]. inversion Hall as [|? ? Hacc Hr]; subst.
+    assert (Hv : vle acc v /\ vle acc x).
+    { unfold acc. destruct (ord_cmp v x) eqn:E; split; unfold vle;
+        try (rewrite ord_cmp_refl; discriminate); try (rewrite E; discriminate).
+      apply vle_of_gt, E. }
+    split.
+    + destruct Hin as [Hin|Hin]; [|right; right; exact Hin].
+      rewrite <- Hin. unfold acc. destruct (match ord_cmp v x with Gt => false | _ => true end); [left | right; left]; reflexivity.
+    + constructor; [eapply vle_trans; [exact Hacc | apply Hv]|].
+      constructor; [eapply vle_trans; [exact Hacc | apply Hv] | exact Hr].
+Qed.
+
+Definition vge (a b : value) : Prop := ord_cmp a b <> Lt.
+Lemma vge_vle a b : vge a b <-> vle b a.
+Proof. unfold vge, vle. rewrite (ord_cmp_opp a b). destruct (ord_cmp a b); cbn; split; congruence. Qed.
+
+Lemma best_max_spec : forall r v,
+  let m := fold_left (fun acc x => if (match ord_cmp acc x with Lt => false | _ => true end) then acc else x) r v in
+  In m (v :: r) /\ Forall (vge m) (v :: r).
+Proof.
+  induction r as [|x r IH]; intros v; cbn [fold_left].
+  - split; [left; reflexivity | constructor; [unfold vge; rewrite ord_cmp_refl; discriminate | constructor]].
+  - set (acc := if match ord_cmp v x with Lt => false | _ => true end then v else x).
+    destruct (IH acc) as [Hin Hall]. inversion Hall as [|? ? Hacc Hr]; subst.
+    assert (Hv : vge acc v /\ vge acc x).
+    { unfold acc. destruct (ord_cmp v x) eqn:E; split; unfold vge;
+        try (rewrite ord_cmp_refl; discriminate); try (rewrite E; discriminate).
+      rewrite (ord_cmp_opp v x), E. cbn. discriminate. }
+    split.
+    + destruct Hin as [Hin|Hin]; [|right; right; exact Hin].
+      rewrite <- Hin. unfold acc. destruct (match ord_cmp v x with Lt => false | _ => true end); [left | right; left]; reflexivity.
+    + assert (T : forall y, vge acc y -> vge (fold_left (fun acc0 x0 => if match ord_cmp acc0 x0 with Lt => false | _ => true end then acc0 else x0) r acc) y).
+      { intros y Hy. apply vge_vle. eapply vle_trans; [apply vge_vle, Hy | apply vge_vle, Hacc]. }
+      constructor; [apply T, Hv|]. constructor; [apply T, Hv | exact Hr].
+Qed.
+
+Lemma sum_values_spec xs v :
+  sum_values xs = Ok v -> exists zs, xs = map VInt zs /\ v = VInt (fold_right Z.add 0%Z zs).
+Proof.
+  unfold sum_values. destruct (omap _ xs) as [zs| | |] eqn:E; cbn [obind]; try discriminate.
+  intros H. exists zs. split.
+  - clear H. apply omap_ok in E. revert zs E. induction xs as [|x xs IH]; intros [|z zs] E; cbn in E; try discriminate; auto.
+    inversion E as [[E1 E2]]. destruct x; try discriminate. inversion E1; subst. cbn. f_equal. apply IH, E2.
+  - unfold mk_int in H. destruct (in_i64 _); [inversion H; reflexivity | discriminate].
+Qed.
+
+(* what each aggregate computes inside a group: [vals] are the argument's values on the rows *)
+Lemma agg_value_spec cf g pe a d e rows vals v :
+  cf_sum_distinct cf = true -> cf_collect_distinct_entities cf = true ->
+  omap (fun r => eval_expr cf g pe r e) rows = Ok vals ->
+  eval_agg cf g pe a d (Some e) rows = Ok v ->
+  let nn := filter (fun x => negb (value_eqb x VNull)) vals in
+  exists xs,
+    (if d then NoDup xs /\ (forall x, In x xs <-> In x nn) else xs = nn) /\
+    match a with
+    | GCount => v = VInt (Z.of_nat (length xs))
+    | GSum => exists zs, xs = map VInt zs /\ v = VInt (fold_right Z.add 0%Z zs)
+    | GMin => (xs = [] /\ v = VNull) \/ (In v xs /\ Forall (fun x => ord_cmp v x <> Gt) xs)
+    | GMax => (xs = [] /\ v = VNull) \/ (In v xs /\ Forall (fun x => ord_cmp v x <> Lt) xs)
+    | GCollect => v = VList xs
+    end.
+Proof.
+  intros F1 F2 Hv H nn. unfold eval_agg in H. rewrite Hv in H. cbn [obind] in H. fold nn in H.
+  set (xs := if d then dedup_by value_eqb nn else nn) in H.
+  exists xs. split.
+  { unfold xs. destruct d; [|reflexivity]. split; [apply dedup_by_NoDup | intros x; apply dedup_by_In]; apply value_eqb_eq. }
+  rewrite F1 in H. rewrite F2 in H. rewrite andb_false_r in H.
+  destruct a; cbn beta iota in H.
+  - inversion H. reflexivity.
+  - apply sum_values_spec, H.
+  - destruct (existsb is_entity xs); [discriminate|]. inversion H; subst. unfold best.
+    destruct xs as [|x0 r]; [left; split; reflexivity|]. right. apply best_min_spec.
+  - destruct (existsb is_entity xs); [discriminate|]. inversion H; subst. unfold best.
+    destruct xs as [|x0 r]; [left; split; reflexivity|]. right. apply best_max_spec.
+  - inversion H. reflexivity.
+Qed.
+
+Lemma count_star_spec cf g pe a d rows :
+  eval_agg cf g pe a d None rows = Ok (VInt (Z.of_nat (length rows))).
+Proof. reflexivity. Qed.
